@@ -3,6 +3,10 @@ CONSTANTS
   Relax = {}
   Mode = "honest"
   MaxBlocks = 3
+  Layouts = {"plain"}
+  MaxUnwind = 0
+  Features = {}
+  Defect = "none"
   MaxReload = 0
 CONSTRAINT Bounded
 VIEW View
